@@ -272,6 +272,23 @@ func genC03(r *Rng, tier string, emit func(string, Tok)) {
 			emit("one-byte", scenario{kind: kind, optSize: sz, fault: -1, data: []byte{0x47}, ops: []int{3, 1, 0}}.tok())
 		}
 	}
+	// streams that do not start with a sync byte (a capture that starts mid-packet), every reader kind and size option
+	for kind := 0; kind < 3; kind++ {
+		for _, sz := range []int{0, 188, 204} {
+			for _, ln := range []int{1, 100, 192, 193, 194, 400, 1000} {
+				d := r.Bytes(ln)
+				if d[0] == 0x47 {
+					d[0] = 0x48
+				}
+				for off := 188; off < len(d); off += 188 {
+					if r.Bool() {
+						d[off] = 0x47
+					}
+				}
+				emit("no-sync-start", scenario{kind: kind + 10*r.Intn(2), optSize: sz, fault: -1, chunks: []int{r.Range(1, 300)}, data: d, ops: ops(r)}.tok())
+			}
+		}
+	}
 	for k := 0; k < n; k++ {
 		var data []byte
 		kindName := "random"
